@@ -32,6 +32,16 @@ fn crud_vec() -> usize {
     for len in 0usize..=4 {
         for key in -7isize..=6 {
             let base: Vec<Value> = (0..len).map(|i| Value::Integer(10 + i as i64)).collect();
+            {
+                // removal on the original array: returns exactly what get returns, a missing index changes nothing
+                let mut r = Value::Array(base.clone());
+                let got = r.get(&idx(key)).cloned();
+                let removed = r.remove(&idx(key), false);
+                if removed != got || (got.is_none() && r != Value::Array(base.clone())) {
+                    bad += 1;
+                    fail("crud_vec", &format!("array {:?} remove [{}]", base, key), &format!("returns {:?} and leaves a missing index alone", got), &format!("{:?}, array now {}", removed, r));
+                }
+            }
             let mut v = Value::Array(base.clone());
             let before = v.get(&idx(key)).cloned();
             let old = v.insert(&idx(key), Value::Integer(99));
